@@ -303,6 +303,7 @@ class WrapMon(Monitor):
             x = self.last_prop.get(ph - 1)
             if x is None or self.point is not x:
                 self.v("C09:validated_point_is_not_the_learners_last_proposal", phase=ph, pos=pos)
+                self.v("C04:validation_reward_credited_to_the_score_of_a_point_that_was_not_pulled", phase=ph, pos=pos)
             vr = self.val_rewards.setdefault(ph, [])
             vr.append(r)
             self.obs["gpo_scores_compared"] += 1
